@@ -153,6 +153,10 @@ pub fn execute(plan: &Plan, ctx: &mut Ctx) {
     }
     let mut model: Vec<TM> = vec![TM { own_s: None, own_c: None, partner: None }; nt];
     let mut snaps: Vec<TSnap> = terms.iter().map(|t| snap_term(t)).collect();
+    // scripted getters that device terminals follow (op TF): pulled by the owning device's update
+    let followed: Vec<SensorHandle<Datum<State>>> = (0..nt).map(|_| SensorHandle::new()).collect();
+    let mut is_following = vec![false; nt];
+    let mut fol: Vec<Option<(i64, [u32; 3])>> = vec![None; nt];
     let mut twins: BTreeMap<usize, PidTwin> = BTreeMap::new();
     for (di, spec) in specs.iter().enumerate() {
         if let DevSpec::Pid(k, b) = spec {
@@ -245,6 +249,25 @@ pub fn execute(plan: &Plan, ctx: &mut Ctx) {
                     [op.arg(2) as u32, op.arg(3) as u32, op.arg(4) as u32],
                 ))),
                 "SC" => Some(norm_unit(&set_cmd(terms[a0], op.arg(1), op.arg(2) as u8, op.arg(3) as u32))),
+                // TF k t p v a: terminal k follows a getter that now holds this state; TFN k: it holds nothing
+                "TF" | "TFN" => {
+                    if !is_following[a0] {
+                        <Terminal<'_, E> as Settable<Datum<State>, E>>::follow(
+                            &mut terms[a0].borrow_mut(),
+                            dyn_getter::<Datum<State>, _>(followed[a0].sensor()),
+                        );
+                        is_following[a0] = true;
+                    }
+                    if code == "TF" {
+                        let st = State::new_raw(op.f(2), op.f(3), op.f(4));
+                        followed[a0].set(Ok(Some(Datum::new(Time(op.arg(1)), Datum::new(Time(op.arg(1)), st)))));
+                        fol[a0] = Some((op.arg(1), [fbits(op.f(2)), fbits(op.f(3)), fbits(op.f(4))]));
+                    } else {
+                        followed[a0].set(Ok(None));
+                        fol[a0] = None;
+                    }
+                    None
+                }
                 "UD" => Some(norm_unit(&devs[a0].update())),
                 "MREJ" => {
                     if let Dev::Act(_, h) | Dev::Pid(_, h) = &*devs[a0] {
@@ -401,7 +424,28 @@ pub fn execute(plan: &Plan, ctx: &mut Ctx) {
             let spec = &specs[d];
             let ts = &dev_terms[d];
             ctx.count("n.device_update");
-            let tie = check_update(ctx, plan, i, spec, ts, &pre, &snaps, ret, &devs[d], motor_before, enc_updates_before, enc_had_pending, twins.get_mut(&d));
+            // a terminal of this device that follows a getter is fed by the device's own update (it
+            // updates its terminals first): what the device then reads there is the followed state.
+            // Modelled for unlinked terminals; an update with a linked follower terminal is not judged.
+            let mut pre = pre;
+            let mut unmodelled = false;
+            for &k in ts.iter() {
+                if let Some(f) = fol[k] {
+                    if model[k].partner.is_some() || !matches!(spec, DevSpec::Invert | DevSpec::Gear(_) | DevSpec::GearTeeth(_) | DevSpec::Axle(_) | DevSpec::Diff(_)) {
+                        unmodelled = true;
+                    } else {
+                        pre[k].own_s = Some(f);
+                        pre[k].rd_s = Out::Some(f.0, Val::S(f.1));
+                        ctx.count("reach.device_pulls_followed_terminal");
+                    }
+                }
+            }
+            let tie = if unmodelled {
+                ctx.count("n.unmodelled_follower_update");
+                false
+            } else {
+                check_update(ctx, plan, i, spec, ts, &pre, &snaps, ret, &devs[d], motor_before, enc_updates_before, enc_had_pending, twins.get_mut(&d))
+            };
             if tie {
                 // different commands with equal stamps met at this device (a kinematic loop
                 // with inconsistent ratios): outside the property's quantifier
